@@ -311,6 +311,20 @@ func (p *provider) findDescriptor(serviceType reflect.Type, key any) *Descriptor
 	return p.services[typeKey]
 }
 
+// isRegistered reports whether the descriptor is (still) part of the registry this
+// provider was built from.
+func (p *provider) isRegistered(d *Descriptor) bool {
+	if p.services[TypeKey{Type: d.Type, Key: d.Key}] == d {
+		return true
+	}
+	for _, m := range p.groups[GroupKey{Type: d.Type, Group: d.Group}] {
+		if m == d {
+			return true
+		}
+	}
+	return false
+}
+
 // findGroupDescriptors finds all descriptors for a specific type within a group.
 // Returns an empty slice if the type is nil, group is empty, or no services are found.
 func (p *provider) findGroupDescriptors(serviceType reflect.Type, group string) []*Descriptor {
